@@ -80,6 +80,11 @@ pub fn exec(_label: &str, input: &str, out: &mut CaseOut) {
                     match from_str(&t2) {
                         Err(e) => out.fail("reencode_unreadable", format!("decode(encode(decode(t))) fails: {e}   t={text:?} t'={t2:?}")),
                         Ok(v2) => {
+                            // the model's second decode must be the implementation's (so that the model's
+                            // stability on this text, a theorem where `stableCert` holds, is the code's)
+                            if t2.len() <= 4000 {
+                                out.req(format!("C11 dec {}", vx::hex(t2.as_bytes())), format!("ok {}", vx::show(&v2)));
+                            }
                             if let Some(d) = same::diff(&v, &v2, "v") {
                                 out.fail("reencode_unstable", format!("{d}   t={text:?} t'={t2:?}"));
                             }
